@@ -112,6 +112,12 @@ def run(ctx, P):
     spec = tuple(P["spec"][:3])
     n = P["n"]
     cs = mk_candles(ctx, n, start=GRID0 + 60 * P.get("start", 1))
+    if P.get("fill"):
+        # with gap filling on, the stream has a hole of two whole buckets after its second candle, so that the
+        # manager really inserts candles - at construction in the batch run, in the middle of the history when appending
+        for i, c in enumerate(cs):
+            if i >= 2:
+                c.timestamp = ctx.const_time(GRID0 + 60 * (P.get("start", 1) + i + 4))
     batch = build_any(spec, candles=clone(cs), **common_kw(P))
     batch.calculate()
     a = snap(batch.candles)
